@@ -16,6 +16,25 @@ def accR (R : Mat) : Int → Int → Bool := fun I j => R.at I.toNat j.toNat
 def accM (M : List Bool) : Int → Bool := fun I => M.getD I.toNat false
 def accE (E : List (List V)) : Int → Int → V := fun I l => (E.getD I.toNat []).getD l.toNat none
 
+/-! ### round 4: the two storage modes in double arithmetic (infinities, NaN, rounding) -/
+
+def accX (E : List (List X)) : Int → Int → X := fun I l => (E.getD I.toNat []).getD l.toNat .nan
+
+/-- `np.isnan(self.embedding).sum(axis=1) != 0` (an infinite sample is *not* missing) -/
+def missingMaskX (emb : List (List X)) : List Bool := emb.map fun r => r.any X.isNan
+
+/-- `RecurrencePlot.set_fixed_threshold` with `metric="supremum"` as executed on doubles:
+`distance = _supremum_distance_matrix_rp(n_time, dim, embedding)` (regenerated from the source),
+`recurrence[distance < threshold] = 1`, and with `missing_values` the rows and columns of the
+samples holding a NaN are cleared. -/
+def fixedThresholdX (rnd : Rat → Rat) (emb : List (List X)) (eps : X) (dim : Nat) (mv : Bool) :
+    Mat :=
+  let n := emb.length
+  let D := StructC08._supremum_distance_matrix_rp (xOps rnd) n dim (accX emb)
+  Recurrence.tab n n fun a b =>
+    (xOps rnd).lt (D a b) eps &&
+      !(mv && ((missingMaskX emb).getD a false || (missingMaskX emb).getD b false))
+
 /-! ### bootstrap of a line histogram -/
 
 /-- `dist /= dist.sum()` read at C index `x` -/
